@@ -554,7 +554,15 @@ class Gen:
         elif c == "tuple":
             x = {"t": "new", "c": self.ch(["Tuple", "Array"]), "a": [self.g_expr(1, term_only=False) for _ in range(2)]}
         else:
-            x = {"t": "meth", "x": self.g_field(alias_ok=False), "m": "isin", "a": [[1, 2, 3]]}
+            r = self.rng.random()
+            if r < 0.7:
+                x = {"t": "meth", "x": self.g_field(alias_ok=False), "m": "isin", "a": [[1, 2, 3]]}
+            elif r < 0.85:
+                x = {"t": "meth", "x": self.g_field(alias_ok=False), "m": "bitwiseand", "a": [self.ch([1, 4])]}
+            else:
+                x = {"t": "new", "c": "NestedCriterion",
+                     "a": [{"t": "enum", "c": "Equality", "v": "eq"}, {"t": "enum", "c": "Boolean", "v": "and_"},
+                           self.g_field(alias_ok=False), self.g_field(alias_ok=False), self.g_field(alias_ok=False)]}
         if isinstance(x, dict) and x.get("t") == "var":
             # a root must be a NEW object: a bare reference would make two heap slots one object, which the
             # slot-wise reference model (and the alias_fx replay) does not describe
